@@ -276,6 +276,17 @@ func sectionPrehash(x *h.X) {
 			x.Fail("prehash-error", "%s: ComputePrehash: %v", what, err)
 			return
 		}
+		// HISTORY: a second message is pre-hashed on the SAME object before the first result is signed (two requests
+		// in flight): the first result still belongs to the first message
+		snapshot := bytes.Clone(pre)
+		if _, err := ph.ComputePrehash(append(bytes.Clone(msg), 0x5a)); err != nil {
+			x.Fail("prehash-error", "%s: ComputePrehash (second message): %v", what, err)
+			return
+		}
+		if !bytes.Equal(pre, snapshot) {
+			x.Fail("prehash-result-overwritten", "%s msglen=%d: the result of ComputePrehash changed when another message was pre-hashed on the same object", what, ml)
+			return
+		}
 		mu := ref.MldsaMu(ref.MldsaTr(k.pk), msg, nil)
 		wantPre := append([]byte{0xff, byte(id >> 24), byte(id >> 16), byte(id >> 8), byte(id)}, mu...)
 		x.Eval(1)
